@@ -264,7 +264,13 @@ func init() {
 					var models [][][]P
 					total := new(big.Rat)
 					for k := 0; k < np; k++ {
-						rings := gen.PolygonWithHoles(r, r.Range(3, 9), bx+float64(k)*sz*3, by, sz/3, sz, 1, r.Intn(4))
+						psz, px, py := sz, bx+float64(k)*sz*3, by
+						if k > 0 && r.Bool() {
+							// close to (or inside the bounding box of) the first polygon, and smaller
+							psz = math.Max(12, sz/float64(r.Range(2, 6)))
+							px, py = bx+r.Uniform(-1.2, 1.2)*sz, by+r.Uniform(-1.2, 1.2)*sz
+						}
+						rings := gen.PolygonWithHoles(r, r.Range(3, 9), math.Round(px), math.Round(py), psz/3, psz, 1, r.Intn(4))
 						var pg orb.Polygon
 						pa := new(big.Rat)
 						for i, rr := range rings {
